@@ -640,7 +640,8 @@ fn c13_attack(f: &mut Findings, w: &mut World, segs: &HashMap<u32, RealSeg>, ins
         mismatch = Some(format!("{}->{}", if ref_deliver { "deliver".to_string() } else { format!("reject-{}", v.class) }, if sim_deliver { "deliver".to_string() } else { format!("{}-{}", last.k, sc) }));
     } else if ref_deliver && last.asn != v.asn {
         mismatch = Some(format!("deliver@{}->deliver@{}", v.asn, last.asn));
-    } else if !ref_deliver && a.nf <= 1 && v.faults.len() == 1 && sc != v.class {
+    } else if !ref_deliver && !a.onehop && a.nf <= 1 && v.faults.len() == 1 && sc != v.class {
+        // (one-hop paths: a router may drop an invalid packet silently, as scionproto does - only accept/reject is compared)
         mismatch = Some(format!("class-{}->{}", v.class, sc));
     }
     match mismatch {
